@@ -7,6 +7,8 @@ type nat =
 | O
 | S of nat
 
+val option_map : ('a1 -> 'a2) -> 'a1 option -> 'a2 option
+
 val fst : ('a1 * 'a2) -> 'a1
 
 val snd : ('a1 * 'a2) -> 'a2
@@ -626,6 +628,29 @@ val pi_loop : mode -> nat -> nat -> n -> n -> n -> n -> n -> n list outcome
 val enc_indices :
   mode -> (((((n * n) * n) * n) * n) * n) -> n -> n -> n -> n list outcome
 
+val append : positive -> positive -> positive
+
+module PositiveMap :
+ sig
+  type key = positive
+
+  type 'a tree =
+  | Leaf
+  | Node of 'a tree * 'a option * 'a tree
+
+  type 'a t = 'a tree
+
+  val empty : 'a1 t
+
+  val find : key -> 'a1 t -> 'a1 option
+
+  val add : key -> 'a1 -> 'a1 t -> 'a1 t
+
+  val xelements : 'a1 t -> key -> (key * 'a1) list
+
+  val elements : 'a1 t -> (key * 'a1) list
+ end
+
 val vadd : n list -> n list -> n list
 
 val vzero : nat -> n list
@@ -749,29 +774,6 @@ val vxor : n list -> n list -> n list
 
 val enc :
   cparams -> nat -> n list list -> (((((n * n) * n) * n) * n) * n) -> n list
-
-val append : positive -> positive -> positive
-
-module PositiveMap :
- sig
-  type key = positive
-
-  type 'a tree =
-  | Leaf
-  | Node of 'a tree * 'a option * 'a tree
-
-  type 'a t = 'a tree
-
-  val empty : 'a1 t
-
-  val find : key -> 'a1 t -> 'a1 option
-
-  val add : key -> 'a1 -> 'a1 t -> 'a1 t
-
-  val xelements : 'a1 t -> key -> (key * 'a1) list
-
-  val elements : 'a1 t -> (key * 'a1) list
- end
 
 val fmul_key : n -> n -> positive
 
@@ -1108,6 +1110,12 @@ val run_slab_replay : mode -> n list -> n list
 val run_cert_ok : n list -> n list
 
 val run_check_intermediate : n list -> n list
+
+val insert_sorted_N : n -> n list -> n list
+
+val run_cm_rows : mode -> n list -> n list
+
+val run_check_intermediate_rfc : n list -> n list
 
 type bvec = n list * n
 
@@ -1479,6 +1487,160 @@ val bm_run_from : bitmat -> n list list -> n list list
 
 val bm_run : n -> n -> n list list -> n list list
 
+val lget : 'a1 list -> n -> 'a1 outcome
+
+val lset : 'a1 list -> n -> 'a1 -> 'a1 list outcome
+
+val lswap : 'a1 list -> n -> n -> 'a1 list outcome
+
+val remove_at : 'a1 list -> nat -> 'a1 list
+
+val insert_at : 'a1 list -> nat -> 'a1 -> 'a1 list
+
+val unwrap : 'a1 option -> 'a1 outcome
+
+type svec = n list
+
+type bsres =
+| Found of nat
+| Missing of nat
+
+val sv_search_from : n list -> n -> nat -> bsres
+
+val sv_search : svec -> n -> bsres
+
+val sv_new : svec
+
+val sv_len : svec -> n
+
+val sv_get_by_raw_index : svec -> n -> (n * n) outcome
+
+val sv_merge : n list -> n list -> n list * bool
+
+val sv_add_assign : svec -> svec -> svec * bool
+
+val sv_remove : svec -> n -> svec * n option
+
+val sv_retain : ((n * n) -> bool outcome) -> svec -> svec outcome
+
+val sv_get : svec -> n -> n option
+
+val sv_keys_values : svec -> (n * n) list
+
+val sv_insert : mode -> svec -> n -> n -> svec outcome
+
+type ilm = n list list
+
+val ilm_get : ilm -> n -> n list outcome
+
+val ilm_build_gen : bool -> n -> (n * n) list -> ilm outcome
+
+type smat0 = { s_height : n; s_width : n; s_rows : svec list;
+               s_dense : n list; s_index : ilm option; s_l2p_row : n list;
+               s_p2l_row : n list; s_l2p_col : n list; s_p2l_col : n list;
+               s_disabled : bool; s_valid : bool list; s_nd : n }
+
+val set_rows : smat0 -> svec list -> smat0
+
+val set_dense : smat0 -> n list -> smat0
+
+val set_index : smat0 -> ilm option -> bool -> smat0
+
+val set_row_maps : smat0 -> n list -> n list -> smat0
+
+val set_col_maps : smat0 -> n list -> n list -> bool list -> smat0
+
+val set_valid : smat0 -> bool list -> smat0
+
+val set_nd : smat0 -> n -> smat0
+
+val debug_assert0 : mode -> bool -> unit outcome
+
+val sm_fd : mode -> smat0 -> n outcome
+
+val sm_rww : smat0 -> n
+
+val sm_lpb : smat0 -> n
+
+val sm_word_offset : smat0 -> n -> n
+
+val sm_bit_position : smat0 -> n -> n -> n * n
+
+val sm_dense_col : mode -> smat0 -> n -> n outcome
+
+val sm_new : mode -> n -> n -> n -> smat0 outcome
+
+val sm_set : mode -> smat0 -> n -> n -> n -> smat0 outcome
+
+val sm_get : mode -> smat0 -> n -> n -> n outcome
+
+val sm_count_ones : mode -> smat0 -> n -> n -> n -> n outcome
+
+val iter_sparse :
+  n list -> n -> n -> svec -> nat -> nat -> (n * n) list outcome
+
+val sm_get_row_iter : mode -> smat0 -> n -> n -> n -> (n * n) list outcome
+
+val sm_get_ones_in_column : mode -> smat0 -> n -> n -> n -> n list outcome
+
+val sm_get_sub_row_as_octets : mode -> smat0 -> n -> n -> (n list * n) outcome
+
+val ctz_pos : positive -> n
+
+val tz64 : n -> n
+
+val drain_block : mode -> nat -> n -> n -> n -> n list -> n list outcome
+
+val nz_words : mode -> nat -> smat0 -> n -> n -> n list -> n list outcome
+
+val sm_query_non_zero_columns_gen :
+  bool -> mode -> smat0 -> n -> n -> n list outcome
+
+val sm_swap_rows : mode -> smat0 -> n -> n -> smat0 outcome
+
+val sm_swap_columns_gen :
+  bool -> mode -> smat0 -> n -> n -> n -> smat0 outcome
+
+val index_entries : svec list -> n -> (n * n) list
+
+val sm_enable_gen : bool -> mode -> smat0 -> smat0 outcome
+
+val sm_disable_column_access_acceleration : mode -> smat0 -> smat0 outcome
+
+val respace :
+  mode -> nat -> n list -> n -> n -> n -> ((n list * n) * n) outcome
+
+val freeze_row : n -> smat0 -> n -> smat0 outcome
+
+val sm_freeze_gen : bool -> mode -> smat0 -> n -> smat0 outcome
+
+val get_both_indices : mode -> 'a1 list -> n -> n -> ('a1 * 'a1) outcome
+
+val sm_verify : mode -> smat0 -> unit outcome
+
+val sm_add_assign_rows : mode -> smat0 -> n -> n -> n -> smat0 outcome
+
+val resize_collect :
+  n list -> n -> svec list -> svec option list -> svec option list outcome
+
+val resize_dense_row : smat0 -> n list -> n -> n list outcome
+
+val resize_maps_step : (n list * n list) -> n -> (n list * n list) outcome
+
+val sm_resize : mode -> smat0 -> n -> n -> smat0 outcome
+
+val ins_sorted : n -> n list -> n list
+
+val sortN : n list -> n list
+
+val sm_step_gen : bool -> mode -> smat0 -> op -> (smat0 * ans option) outcome
+
+val sm_run_from_gen : bool -> mode -> smat0 -> n list list -> n list list
+
+val sm_run_gen : bool -> mode -> n -> n -> n -> n list list -> n list list
+
+val sm_run : mode -> n -> n -> n -> n list list -> n list list
+
 val split_ops : nat -> n list -> n list list
 
 val flat_rows : n list list -> n list
@@ -1487,7 +1649,298 @@ val run_bm_dense : bool -> n list -> n list
 
 val run_bm_spec : n list -> n list
 
+val run_bm_sparse : mode -> n list -> n list
+
 val run_mat : n -> n list -> n list
+
+val lenN0 : 'a1 list -> n
+
+val getN : 'a1 list -> n -> 'a1 outcome
+
+val putN : 'a1 list -> n -> 'a1 -> 'a1 list outcome
+
+val swapN : 'a1 list -> n -> n -> 'a1 list outcome
+
+val subl : 'a1 list -> n -> n -> 'a1 list
+
+val seqN_from : nat -> n -> n list
+
+val seqN : n -> n -> n list
+
+val usub : mode -> n -> n -> n outcome
+
+type bmat = n list list
+
+val bm_get0 : bmat -> n -> n -> n outcome
+
+val count1 : n list -> n
+
+val bm_count_ones0 : bmat -> n -> n -> n -> n outcome
+
+val bm_row_iter : bmat -> n -> n -> n -> (n * n) list outcome
+
+val col_scan : n list list -> nat -> n -> n list outcome
+
+val bm_ones_in_col : bmat -> n -> n -> n -> n list outcome
+
+val bm_sub_row0 : bmat -> n -> n -> n list outcome
+
+val bm_nonzero_cols : bmat -> n -> n -> n list outcome
+
+val bm_swap_rows0 : bmat -> n -> n -> bmat outcome
+
+val bm_swap_cols : bmat -> n -> n -> n -> bmat outcome
+
+val bm_add_rows : bmat -> n -> n -> n -> bmat outcome
+
+val bm_resize0 : bmat -> n -> n -> n -> bmat outcome
+
+val am_get : n -> n list -> n -> n outcome
+
+val am_put : n -> n list -> n -> n -> n list outcome
+
+val am_dec : mode -> n -> n list -> n -> n list outcome
+
+val am_inc : mode -> n -> n list -> n -> n list outcome
+
+val h_get : n list -> n -> n
+
+val h_grow : n list -> n -> n list
+
+val h_inc : mode -> n list -> n -> n list outcome
+
+val h_dec : mode -> n list -> n -> n list outcome
+
+type ccg = { g_node : n list; g_merged : n list; g_size : n list; g_num : n }
+
+val g_new : n -> ccg
+
+val canon_loop : nat -> n list -> n -> n outcome
+
+val g_canon : ccg -> n -> n outcome
+
+val g_create : ccg -> ccg * n
+
+val g_add_node : mode -> ccg -> n -> n -> ccg outcome
+
+val g_swap : ccg -> n -> n -> ccg outcome
+
+val g_contains : ccg -> n -> bool outcome
+
+val g_remove_node : mode -> ccg -> n -> ccg outcome
+
+val g_find_node : ccg -> n -> n list -> n outcome
+
+val g_largest : ccg -> n -> n -> n outcome
+
+val g_add_edge : mode -> ccg -> n -> n -> ccg outcome
+
+val g_reset : ccg -> ccg outcome
+
+type stats = { st_od : n list; st_opr : n list; st_hist : n list; st_sc : 
+               n; st_ec : n; st_sr : n; st_single : n list; st_g : ccg }
+
+val st_set_g : stats -> ccg -> stats
+
+val position : n list -> n -> nat -> nat option
+
+val swap_remove : n list -> nat -> n list
+
+val single_remove : n list -> n -> n list
+
+val two_ones : bmat -> n -> n -> n -> (n * n) outcome
+
+val st_add_graph_edge : mode -> stats -> bmat -> n -> n -> n -> stats outcome
+
+val ins_sorted0 : n -> n list -> n list
+
+val graph_nodes : (n * n) list -> n list
+
+val graph_adjacent : (n * n) list -> n -> n list
+
+val build_adjacency : stats -> bmat -> n -> n -> (n * n) list outcome
+
+val cc_dfs : mode -> nat -> (n * n) list -> ccg -> n -> n list -> ccg outcome
+
+val rebuild_cc : mode -> stats -> bmat -> n -> n -> stats outcome
+
+val st_new : mode -> bmat -> n -> n -> stats outcome
+
+val st_swap_rows : stats -> n -> n -> stats outcome
+
+val st_swap_cols : stats -> n -> n -> stats outcome
+
+val st_recompute_row : mode -> stats -> bmat -> n -> stats outcome
+
+val st_lose_one :
+  mode -> n -> (((n list * n list) * n list) * n list) -> (((n list * n
+  list) * n list) * n list) outcome
+
+val st_resize :
+  mode -> stats -> bmat -> n -> n -> n -> n -> n list -> stats outcome
+
+val find_r : n list -> n list -> n option
+
+val first_with2 : n list -> n list -> n outcome
+
+val graph_substep : stats -> bmat -> n -> n -> n outcome
+
+val od_pick : (n * n) list -> n option -> n -> n outcome
+
+val original_degree_substep : stats -> n -> n -> n -> n outcome
+
+val graph_substep_verify : stats -> n -> n -> unit outcome
+
+val first_phase_selection :
+  mode -> stats -> bmat -> n -> n -> (n * n) option outcome
+
+type rowop =
+| RAdd of n * n
+| RSwap of n * n
+
+type pstate = { ps_A : bmat; ps_W : n; ps_hd : n list list option;
+                ps_X : bmat; ps_c : n list; ps_d : n list; ps_i : n;
+                ps_u : n; ps_L : n; ps_ops : symbol_op list }
+
+val set_A : pstate -> bmat -> pstate
+
+val set_hd : pstate -> n list list option -> pstate
+
+val set_X : pstate -> bmat -> pstate
+
+val set_ops : pstate -> symbol_op list -> pstate
+
+val ps_height : pstate -> n
+
+val num_hdpc : pstate -> n
+
+val record_mul_row : pstate -> n -> n -> pstate outcome
+
+val record_fma_rows : pstate -> n -> n -> n -> pstate outcome
+
+val fma_rows : mode -> pstate -> n -> n -> n -> pstate outcome
+
+val fma_binary : mode -> n list -> n list -> n -> n list outcome
+
+val fma_rows_with_pi :
+  mode -> pstate -> n -> n -> n -> n -> n list -> pstate outcome
+
+val ps_swap_rows : mode -> pstate -> n -> n -> pstate outcome
+
+val ps_swap_cols : pstate -> n -> n -> n -> pstate outcome
+
+val onX : mode -> pstate -> (bmat -> bmat outcome) -> pstate outcome
+
+val ps_new_common : mode -> bmat -> n -> n -> pstate outcome
+
+val ps_new : mode -> n -> n -> bmat -> n list list -> n -> n -> pstate outcome
+
+val find_dest : mode -> nat -> bmat -> n -> n -> n outcome
+
+val swap_cols_all :
+  mode -> pstate -> stats -> n -> n -> (pstate * stats) outcome
+
+val swap_cols_loop :
+  mode -> (n * n) list -> n -> pstate -> stats -> n -> bool ->
+  ((pstate * stats) * n) outcome
+
+val first_phase_swap_columns_substep :
+  mode -> pstate -> stats -> n -> (pstate * stats) outcome
+
+val is_unit_prefix : n -> n list -> n -> bool
+
+val all_zero : n list -> bool
+
+val a_values : pstate -> n list list
+
+val first_phase_verify : pstate -> unit outcome
+
+val eliminate_row :
+  mode -> n -> n -> n -> n -> ((pstate * stats) * rowop list) ->
+  ((pstate * stats) * rowop list) outcome
+
+val eliminate_hdpc_row :
+  mode -> n -> n -> n -> n list -> n -> pstate -> pstate outcome
+
+val eliminate_hdpc : mode -> n -> n -> n -> n -> pstate -> pstate outcome
+
+val advance : pstate -> n -> pstate
+
+val first_phase_step :
+  mode -> pstate -> stats -> rowop list -> ((pstate * stats) * rowop list)
+  option outcome
+
+val first_phase_loop :
+  mode -> nat -> pstate -> stats -> rowop list -> (pstate * rowop list)
+  option outcome
+
+val x_elimination_ops :
+  rowop list -> n list -> n -> rowop list -> rowop list outcome
+
+val first_phase : mode -> pstate -> (pstate * rowop list) option outcome
+
+val is_identity : bmat -> n -> bool
+
+val second_phase_verify : pstate -> rowop list -> unit outcome
+
+val oct_row_fma : n list -> n list -> n -> n list
+
+val find_pivot : n list list -> nat -> n -> n option outcome
+
+val reduce_column :
+  mode -> n -> n -> (pstate * n list list) -> (pstate * n list list) option
+  outcome
+
+val reduce_loop :
+  mode -> n -> n list -> (pstate * n list list) -> (pstate * n list list)
+  option outcome
+
+val record_reduce_to_row_echelon :
+  mode -> pstate -> n list list -> n -> n -> n -> (pstate * n list list)
+  option outcome
+
+val backwards_elimination :
+  pstate -> n list list -> n -> n -> n -> pstate outcome
+
+val second_phase : mode -> pstate -> rowop list -> pstate option outcome
+
+val third_phase_verify : pstate -> unit outcome
+
+val third_phase_verify_end : pstate -> unit outcome
+
+val errata11_start : mode -> pstate -> n
+
+val third_phase : mode -> pstate -> rowop list -> pstate outcome
+
+val fourth_phase_verify : pstate -> unit outcome
+
+val fourth_phase : mode -> pstate -> pstate outcome
+
+val fifth_phase_verify : pstate -> unit outcome
+
+val fifth_phase : mode -> pstate -> rowop list -> pstate outcome
+
+val reorder_of : pstate -> n list outcome
+
+val execute : mode -> pstate -> symbol_op list option outcome
+
+val pi_run :
+  mode -> n -> n -> n list list -> n list list -> n -> n -> symbol_op list
+  option outcome
+
+val pi_run_no_hdpc :
+  mode -> n list list -> n -> n -> symbol_op list option outcome
+
+val flat_op : symbol_op -> n list
+
+val flat_ops : symbol_op list -> n list
+
+val pi_system_run : mode -> n -> n list -> symbol_op list option outcome
+
+val pi_system_run_no_hdpc :
+  mode -> n -> n list -> symbol_op list option outcome
+
+val pi_plan_run : mode -> n -> n list option outcome
 
 val pcode : pclass -> n
 
@@ -1518,5 +1971,9 @@ val enc_t6 : (((((n * n) * n) * n) * n) * n) outcome -> n list
 val t6_of : n list -> ((((n * n) * n) * n) * n) * n
 
 val run_tuple : n -> n list -> n list
+
+val enc_sol : n list option outcome -> n list
+
+val run_pisolver : n -> n list -> n list
 
 val run : n -> n list -> n list
